@@ -63,6 +63,19 @@ pub proof fn lemma_wsteps_symmetric<T: Eq + PartialOrd + Send + Sync, A: Clone>(
     }
 }
 
+// [C20.steps.backed_by_a_stored_edge_on_directed_graphs] a successor listed by the index set has a stored edge list under the canonical key
+pub proof fn lemma_steps_are_stored_directed<T: Eq + PartialOrd + Send + Sync, A: Clone>(g: Graph<T, A>)
+    requires
+        g.wf_index_sets(), g.specs.directed,
+    ensures
+        steps_are_stored(g),
+{
+    assert forall|a: T, x: T| #[trigger] steps_to(g, a, x) implies
+            g.has_pair(g.canon(g.nodes_map@[a], g.nodes_map@[x]).0, g.canon(g.nodes_map@[a], g.nodes_map@[x]).1) by {
+        assert(g.linked(g.nodes_map@[a], g.nodes_map@[x]));
+    }
+}
+
 // [C02.coherence.index_sets_preserved_by_add_edge]
 pub proof fn lemma_index_sets_preserved_by_add_edge<T: Eq + PartialOrd + Send + Sync, A: Clone>(pre: Graph<T, A>, e: Edge<T, A>, post: Graph<T, A>, r: Result<(), Error>)
     requires
